@@ -26,7 +26,13 @@ pub enum POp {
     Sleep { ms: u32 },
     Link { lane: String },
     Sync { lane: String },
+    /// A command sent straight to a lane (not through `run`): sets value lane `item` (0 or 2) to `value`, or
+    /// updates `key` of map lane `item` (3 or 4). Values are unique and >= DIRECT_MIN, so the trigger can be
+    /// recognised in the trace (it has no `Top` marker: the lane's own handlers are the top level).
+    Direct { item: i32, key: i32, value: i32 },
 }
+
+pub const DIRECT_MIN: i32 = 5000;
 
 #[derive(Debug, Clone, Serialize, Deserialize, PartialEq, Eq)]
 pub struct Peer {
@@ -108,7 +114,8 @@ fn cost(p: &Prog, trig: &[u64; N_ITEMS]) -> u64 {
         Prog::Set { item, .. } | Prog::Update { item, .. } | Prog::Remove { item, .. } | Prog::Clear { item } => {
             1u64.saturating_add(trig[(*item as usize).min(N_ITEMS - 1)])
         }
-        Prog::Get { .. } | Prog::Effect { .. } | Prog::Fail => 1,
+        Prog::Get { .. } | Prog::Effect { .. } | Prog::Fail | Prog::Stop => 1,
+        Prog::AndThen { first, body } => 1u64.saturating_add(cost(first, trig)).saturating_add(cost(body, trig)),
         Prog::Seq { items, .. } => items.iter().fold(0u64, |a, p| a.saturating_add(cost(p, trig))),
         Prog::AndThenGet { body, .. } => 1u64.saturating_add(cost(body, trig)),
         Prog::Suspend { body, .. } => 3u64.saturating_add(cost(body, trig)),
@@ -148,6 +155,11 @@ pub fn generate(seed: u64, _tier: Tier) -> HScenario {
     let table_susp_pm = *rng.pick(&[0u64, 0, 60, 150]);
     let top_fail_pm = *rng.pick(&[0u64, 0, 20, 60]);
     let top_susp_pm = *rng.pick(&[0u64, 80, 150, 250]);
+    // Separate stream: the presence of stop actions and direct lane commands does not change the rest.
+    let mut xr = root.sub("extras");
+    let stop_pm = *xr.pick(&[0u64, 0, 0, 15, 40]);
+    let direct_pm = *xr.pick(&[0u64, 0, 250, 500]);
+    let mut next_direct = DIRECT_MIN;
 
     let mut table = vec![];
     for item in 0..N_ITEMS as i32 {
@@ -160,6 +172,7 @@ pub fn generate(seed: u64, _tier: Tier) -> HScenario {
                     key_pool,
                     fail_pm: table_fail_pm,
                     suspend_pm: table_susp_pm,
+                    stop_pm: stop_pm / 2,
                 };
                 let prog = gen_prog(&mut rng, &mut a, &cfg);
                 if !prog.is_empty() {
@@ -169,13 +182,13 @@ pub fn generate(seed: u64, _tier: Tier) -> HScenario {
         }
     }
     let start = if rng.chance(1, 2) {
-        let cfg = GenCfg { min_mod: 0, max_nodes: rng.range(1, 8) as usize, max_depth: 3, key_pool, fail_pm: 0, suspend_pm: top_susp_pm };
+        let cfg = GenCfg { min_mod: 0, max_nodes: rng.range(1, 8) as usize, max_depth: 3, key_pool, fail_pm: 0, suspend_pm: top_susp_pm, stop_pm: 0 };
         gen_prog(&mut rng, &mut a, &cfg)
     } else {
         Prog::empty()
     };
     let stop = if rng.chance(1, 2) {
-        let cfg = GenCfg { min_mod: 0, max_nodes: rng.range(1, 8) as usize, max_depth: 3, key_pool, fail_pm: top_fail_pm, suspend_pm: top_susp_pm / 2 };
+        let cfg = GenCfg { min_mod: 0, max_nodes: rng.range(1, 8) as usize, max_depth: 3, key_pool, fail_pm: top_fail_pm, suspend_pm: top_susp_pm / 2, stop_pm: 0 };
         gen_prog(&mut rng, &mut a, &cfg)
     } else {
         Prog::empty()
@@ -208,7 +221,13 @@ pub fn generate(seed: u64, _tier: Tier) -> HScenario {
                 key_pool,
                 fail_pm: top_fail_pm,
                 suspend_pm: top_susp_pm,
+                stop_pm,
             };
+            if xr.below(1000) < direct_pm {
+                next_direct += 1;
+                let item = *xr.pick(&[0i32, 2, 3, 4]);
+                ops.push(POp::Direct { item, key: xr.range_i(0, key_pool as i64 - 1) as i32, value: next_direct });
+            }
             next_id += 1;
             ops.push(POp::Send { id: next_id, prog: gen_prog(&mut rng, &mut a, &cfg) });
         }
@@ -238,6 +257,9 @@ fn bound_cost(sc: &mut HScenario) {
             for op in &p.ops {
                 if let POp::Send { prog, .. } = op {
                     worst = worst.max(static_cost(&t, prog));
+                }
+                if let POp::Direct { item, value, .. } = op {
+                    worst = worst.max(static_cost(&t, &Prog::Set { item: *item, value: *value }));
                 }
             }
         }
